@@ -181,9 +181,12 @@ CHECKS = {
         "assumptions": EXPLORATION_ASSUMPTIONS + ["the negotiation model (capModel in c19_test.go) is written from the property statement; REQ is compared as a set across lines",
                                                   "the enumerated part is exhaustive over the stated small universe (evidence: exhaustive_enum, enum_sessions)"],
         "legs": [
+            {"test": "TestC19_Regress", "quick": {"timeout": "5m"}, "thorough": {"timeout": "5m"}},
             {"test": "TestC19_Enum", "quick": {"shards": 4, "timeout": "15m"}, "thorough": {"shards": 4, "timeout": "15m"}},
             {"test": "TestC19", "quick": {"checks": 1000, "timeout": "15m"},
              "thorough": {"checks": 5000, "shards": 4, "timeout": "60m"}},
+            {"test": "TestC19_Sessions", "quick": {"checks": 1500, "timeout": "15m"},
+             "thorough": {"checks": 20000, "shards": 4, "timeout": "60m"}},
         ],
     },
     "C14": {
